@@ -757,13 +757,13 @@ pub fn run(ctx: &Ctx, rep: &mut Report, prop: &str) {
     }
     let (quick, thorough, per_scenario) = match prop {
         "c01" => (40_000u64, 1_200_000u64, 40usize),
-        "c02" => (40_000, 1_000_000, 40),
-        "c03" => (20_000, 600_000, 40),
-        "c04" => (20_000, 500_000, 30),
-        "c05" => (10_000, 400_000, 0),
-        "c07" => (24_000, 800_000, 40),
-        "c08" => (32_000, 1_000_000, 40),
-        "c09" => (32_000, 1_000_000, 40),
+        "c02" => (160_000, 1_600_000, 40),
+        "c03" => (80_000, 1_000_000, 40),
+        "c04" => (80_000, 1_000_000, 30),
+        "c05" => (40_000, 600_000, 0),
+        "c07" => (96_000, 1_200_000, 40),
+        "c08" => (128_000, 1_600_000, 40),
+        "c09" => (128_000, 1_600_000, 40),
         _ => unreachable!(),
     };
     let n = if ctx.is_miri() { ctx.cases(4, 160) } else { ctx.cases(quick, thorough) };
